@@ -112,8 +112,15 @@ func (e *Engine) addContractFile(file, pkgPath string) error {
 				return fmt.Errorf("%s:%d: contract for %s does not bind to a function (looked for %s)", file, ct.Line, name, key)
 			}
 		}
-		if _, dup := e.contracts[key]; dup {
-			return fmt.Errorf("%s:%d: duplicate contract for %s", file, ct.Line, key)
+		if prev, dup := e.contracts[key]; dup {
+			if prev.Extern && !ct.Extern {
+				// an assumed (extern) contract of a function of this repository, given for the
+				// checks that do not load its package, is replaced by the package's own contract
+			} else if !prev.Extern && ct.Extern {
+				continue // .. whichever of the two files is read first
+			} else {
+				return fmt.Errorf("%s:%d: duplicate contract for %s", file, ct.Line, key)
+			}
 		}
 		e.contracts[key] = ct
 		e.contractPkg[key] = pkgPath
